@@ -100,7 +100,7 @@ def _foreign_receivers(pendulum, z, x, x_f, x_o):
     return [(n, fz, f) for n, fz, f in out if obs.offset_s(f) == x_o]
 
 
-def check_case(acc, pendulum, zname, inst, kw, variants=True):
+def check_case(acc, pendulum, zname, inst, kw, variants=True, foreign=None):
     """One state x one amount: add, inverse, and the operator spellings."""
     A = _total_us(kw)
     target = inst + A
@@ -137,6 +137,10 @@ def check_case(acc, pendulum, zname, inst, kw, variants=True):
     td = dt_.timedelta(**kw)
     ops = [("add", lambda: x.add(**kw), target)]
     if variants:
+        # the same call with every argument positional, in the documented order (years ... microseconds)
+        pos = (0, 0, 0, 0, kw.get("hours", 0), kw.get("minutes", 0), kw.get("seconds", 0), kw.get("microseconds", 0))
+        ops.append(("add-positional", lambda: x.add(*pos), target))
+        ops.append(("subtract-positional", lambda: x.subtract(*(-v for v in pos)), target))
         ops.append(("plus_td", lambda: x + td, target))
         ops.append(("subtract_neg", lambda: x.subtract(**{k: -v for k, v in kw.items()}), target))
         ops.append(("minus_td", lambda: x - dt_.timedelta(**{k: -v for k, v in kw.items()}), target))
@@ -170,7 +174,7 @@ def check_case(acc, pendulum, zname, inst, kw, variants=True):
             if got != (exp_f, exp_o):
                 acc.mismatch("add", "constructed-receiver", dict(case, receiver_fold=1 - x.fold),
                              {"fields": got[0], "offset": got[1]}, {"fields": exp_f, "offset": exp_o})
-    if variants:
+    if variants if foreign is None else foreign:
         # receivers that carry a tzinfo which is not a pendulum timezone (raw constructor, fromisoformat(),
         # astimezone(<stdlib tzinfo>)): same instant, same zone - the timezone must be kept
         for fname, fz, fx in _foreign_receivers(pendulum, z, x, x_f, x_o):
@@ -237,7 +241,8 @@ def run_shard(shard):
                 acc.c["nontrivial"] += 1
             for i, kw in enumerate(amounts):
                 with worker.guarded(acc, "add", {"kind": "c", "z": z, "inst": inst, "kw": kw}):
-                    check_case(acc, pendulum, z, inst, kw, variants=(shard["thorough"] or i % 3 == inst % 3))
+                    check_case(acc, pendulum, z, inst, kw, variants=(shard["thorough"] or i % 3 == inst % 3),
+                               foreign=(shard["thorough"] or i % 9 == inst % 9))
         if z is not None and not isinstance(z, int) and insts:
             acc.sample({"zone": z, "instant": obs.iso(insts[0]), "amount": amounts[3]})
     acc.c["states"] += len(seen_states)
